@@ -126,5 +126,47 @@ func init() {
 				}
 			}
 		}
+		// independence in time: a client that waits for a slow device (authentication answered after 1.5 s, or a request
+		// answered after 1.5 s) must not hold up another client whose own device answers at once
+		for _, where := range []string{"authentication", "request"} {
+			prop := "pass"
+			var took time.Duration
+			for attempt := 0; attempt < 2; attempt++ {
+				grant := frameReply([]rscp.Message{{Tag: rscp.RSCP_AUTHENTICATION, DataType: rscp.UChar8, Value: uint8(10)}})
+				slowCall := &callSpec{kind: "S", dialOk: true, writeOk: true, reqs: g.nonceRequest(0), auth: grant}
+				slowCall.user = frameReply(replyFor(slowCall.reqs, 0))
+				if where == "authentication" {
+					slowCall.auth.beh.kind, slowCall.auth.beh.k = "slow", 1500
+				} else {
+					slowCall.user.beh.kind, slowCall.user.beh.k = "slow", 1500
+				}
+				fastCall := &callSpec{kind: "S", dialOk: true, writeOk: true, reqs: g.nonceRequest(1), auth: grant}
+				fastCall.user = frameReply(replyFor(fastCall.reqs, 1))
+				a, errA := newSession("slowuser", "pw", "slowkey", 3*time.Second, 1)
+				b, errB := newSession("fastuser", "pw", "fastkey", 3*time.Second, 1)
+				if errA != nil || errB != nil {
+					break
+				}
+				doneA := make(chan string, 1)
+				go func() { doneA <- a.call(slowCall) }()
+				time.Sleep(200 * time.Millisecond)
+				t0 := time.Now()
+				rb := b.call(fastCall)
+				took = time.Since(t0)
+				ra := <-doneA
+				a.close()
+				b.close()
+				prop = "pass"
+				if !strings.HasPrefix(rb, "ok ") || !strings.HasPrefix(ra, "ok ") {
+					prop = "FAIL C17 two clients with their own devices: " + trunc(ra, 60) + " / " + trunc(rb, 60)
+				} else if took > 900*time.Millisecond {
+					prop = fmt.Sprintf("FAIL C17 a client whose device answers at once was held up for %v while another client waited for its own slow device (%s)", took.Round(time.Millisecond), where)
+				}
+				if prop == "pass" {
+					break
+				}
+			}
+			cw.add("skip", "skip", fmt.Sprintf("N conc slow-%s took=%dms", where, took.Milliseconds()), prop)
+		}
 	}
 }
